@@ -330,6 +330,8 @@ class Ensemble(_Base):
             return 'harness/trace failure: %s %s' % (out['error'], out['msg'])
         an = self._analyse(case, out)
         ms = an['members']
+        if out.get('error') and not self._pinned_d3(case, out, an):
+            return 'implementation raised %s (%s)' % (out['error'], out['msg'][-100:])
         if len(ms) != case['N']:
             return 'traced %d member sifts (%d sift calls) for nensembles=%d' % (len(ms), an['nsift'], case['N'])
         if any(m['unit'] is None for m in ms):
@@ -365,7 +367,7 @@ class Ensemble(_Base):
         an = self._analyse(case, out)
         ms, x, n = an['members'], an['x'], len(an['x'])
         fs = []
-        if len(ms) != case['N']:
+        if len(ms) != case['N'] and not out.get('error'):
             fs.append(Failure('wrong-number-of-member-sifts', '%d members traced for nensembles=%d' % (len(ms), case['N'])))
         # own noise realisation per member
         if case['level'] > 0 and ms:
